@@ -78,6 +78,10 @@ def neq(a, b):
         return sx.not_(same)
     if isinstance(a, pe._Inf) or isinstance(b, pe._Inf):
         return not (isinstance(a, pe._Inf) and isinstance(b, pe._Inf) and a.sign == b.sign)
+    if not sx.is_sym(a) and not sx.is_sym(b):
+        # both concrete: python-float arithmetic inside the library (literals like 0.0) is inexact
+        fa, fb = float(a), float(b)
+        return abs(fa - fb) > 1e-9 * max(1.0, abs(fa), abs(fb))
     return sx.ne(a, b)
 
 
